@@ -49,6 +49,47 @@ def _whole_text(b, op, text_param, depth=0):
     return None
 
 
+def _sources(b, op):
+    """names of the calls (or 'arith:..') a value is computed from; casts, tuple payloads and `?` are looked through"""
+    out, seen = set(), set()
+    l = dataflow.operand_local(op)
+    if l is None:
+        return {"const"}
+    todo = [l]
+    while todo:
+        x = todo.pop()
+        if x in seen:
+            continue
+        seen.add(x)
+        for r in dataflow.roots(b, x):
+            if r[0] == "call":
+                c = b.blocks[r[1]][2][1]
+                n = name(c)
+                if n.endswith(("Try>::branch", "Into<U>>::into", "From<T>>::from")) and c["a"]:
+                    la = dataflow.operand_local(c["a"][0])
+                    if la is not None:
+                        todo.append(la)
+                    continue
+                out.add(n.split("::")[-1])
+            elif r[0] == "place":
+                todo.append(r[1])
+            elif r[0] == "other":
+                rv = b.blocks[r[1]][1][r[2]][2]
+                if rv[0] == "cast":
+                    for y in rv[1:]:
+                        if isinstance(y, list) and y and y[0] in ("c", "m"):
+                            todo.append(y[1][0])
+                else:
+                    out.add("arith:" + str(rv[0]) + (":" + str(rv[1]) if rv[0] in ("bin", "un") else ""))
+            elif r[0] == "const":
+                out.add("const")
+            elif r[0] == "arg":
+                out.add("arg")
+            else:
+                out.add(str(r[0]))
+    return out
+
+
 def run(chk, F, tier):
     chk.rule("R22a", "a position on a missing line converts to nothing: the line-start lookup guards everything else")
     chk.rule("R22b", "the column is clamped by the line's own content, not by the whole text")
@@ -122,6 +163,26 @@ def run(chk, F, tier):
             else:
                 chk.violation("R22c", key, "no bounds fact and no audited entry for this %s site in LineIndex: some position may panic the conversion" % kind,
                               b.loc(line), witness={"kind": kind, "callee": detail})
+    # R22d: LSP positions are built from get_line_col only
+    chk.rule("R22d", "LuaDocument::to_lsp_range / to_lsp_position take every line and character from get_line_col (no shortcut that adds byte lengths "
+                     "to character columns), so offset -> position agrees between ranges and single positions")
+    DOC = "emmylua_code_analysis::vfs::document::LuaDocument"
+    npos = 0
+    for fn in ("to_lsp_range", "to_lsp_position"):
+        b = F.bodies.get(DOC + "::" + fn)
+        if b is None:
+            raise RuleBroken("LuaDocument::%s not found" % fn)
+        for blk in b.blocks:
+            for st in blk[1]:
+                if st[0] == "a" and st[2][0] == "agg" and st[2][1] == "adt" and (st[2][2] or "").endswith("::Position") and len(st[2][4]) == 2:
+                    for op in st[2][4]:
+                        npos += 1
+                        src = _sources(b, op)
+                        chk.check(src == {"get_line_col"}, "R22d", "%s:component#%d" % (fn, npos),
+                                  "%s computes a line/character from %s instead of get_line_col alone: on a line with multi-byte characters the result "
+                                  "differs from to_lsp_position of the same offset and does not convert back to the original range" % (fn, sorted(src)),
+                                  b.loc(st[3] if len(st) > 3 else None), sample={"rule": "R22d", "fn": fn, "verdict": "from get_line_col"})
+    chk.floor("Position components built by LuaDocument", npos, 6)
     chk.floor("index / slice sites in LineIndex", n, 3)
     chk.floor("conversion functions", nfun, 2)
     chk.explanation = "Dominance of the line lookup, provenance of the clamp bound (whole text vs line content), bounds facts for every index of LineIndex."
